@@ -5,7 +5,10 @@ D=/verif/seeded/$ID
 cd /repo || exit 2
 if [ -n "$(git status --porcelain)" ]; then echo "/repo not clean"; exit 2; fi
 git apply $D/patch.diff || { echo "$ID: patch does not apply to current /repo"; exit 3; }
+cp /verif/evidence/$PROP.json /tmp/seedrun.$ID.$PROP.evidence 2>/dev/null
 cd /verif && ./check $PROP --tier $TIER > /tmp/seedrun.$ID.$PROP.out 2>&1; rc=$?
+# evidence files record clean-tree runs only
+cp /tmp/seedrun.$ID.$PROP.evidence /verif/evidence/$PROP.json 2>/dev/null
 git -C /repo checkout -- . ; git -C /repo clean -fdq
 v=$(grep -m1 '^VIOLATION' /tmp/seedrun.$ID.$PROP.out)
 echo "$ID vs $PROP ($TIER): rc=$rc ${v}"
